@@ -8,8 +8,8 @@ V = os.path.dirname(os.path.dirname(os.path.abspath(__file__)))
 
 T = {
  'C01': ('MIR guard-liveness + dominance + who-may-call + typestate',
-         'seq chosen, appended and advanced inside one live range of the next_seq guard at every ContinuityStore append site, with the appended Event.seq derived from the guarded map and the advance on the Ok edge only (C01.1); single audited writer set for EventLog::append / EventLog::new (C01.2); log line written and flushed under the writer guard (C01.3); task seq guard spans construct/publish/record/append with exactly one advance (C01.4); seq-cell use/advance typestate for session, tool and provider frames (C01.5); provider pipe offset siblings (C01.6, in C15.2)',
-         'numeric contiguity across a restart (K-C05-seq-from-cache); three creation-time appends outside the lock (K-C01-unlocked)'),
+         'seq chosen, appended and advanced inside one live range of the next_seq guard at every ContinuityStore append site, with the appended Event.seq derived from the guarded map and the advance on the Ok edge only (C01.1); single audited writer set for EventLog::append / EventLog::new (C01.2); log line written and flushed under the writer guard (C01.3); task seq guard spans construct/publish/record/append with exactly one advance (C01.4); seq-cell use/advance typestate for session, tool and provider frames (C01.5); provider pipe offset siblings (C01.6, in C15.2); write-back of the local seq copy before the kernel loop (C01.7)',
+         'numeric contiguity across a restart (K-C05-seq-from-cache)'),
  'C02': ('MIR open-mode / effect reachability over the call graph / edge dominance',
          'append-only open mode of the truth file and no destructive fs call in EventLog (C02.1); serialise-before-write and flush on every success path (C02.2); only SessionEngine::new names events.jsonl, EventLog fields private, cache modules cannot reach rip_log writers (C02.3); 11 read-only store capabilities and 14 read-only HTTP handlers cannot reach EventLog::append over the call graph (C02.4); dry-run / noop / rotate appends are reachable only through the false edge of their guards (C02.5)',
          'OS semantics of O_APPEND (trusted)'),
@@ -35,8 +35,8 @@ T = {
          'job bracket on every path after the summariser ran (C09.1); planned-vs-actual comparisons guard the summary write and checkpoint append (C09.2); hash iterations are collected and sorted with a tie-break (C09.3); shares C02.5 and C05.2',
          'ordinal arithmetic, tie-breaks, concurrent schedulers'),
  'C10': ('MIR provenance + dominance',
-         'lineage frame stream id derives from the fresh child id only, no append receives the parent id (C10.1); create dominates lineage, nothing between, seq constants 0/1/2 (C10.2); no validation return after the child exists (C10.3)',
-         'cut arithmetic; lineage frame vs concurrent writers (K-C01-unlocked)'),
+         'lineage frame stream id derives from the fresh child id only, no append receives the parent id (C10.1); create dominates lineage, nothing between, seq constants 0/1/2 (C10.2); no validation return and nothing fallible after the child exists (C10.3); handoff frame carries the validated summary (C10.4); related-frames scan walks the whole stream (C10.5)',
+         'cut arithmetic beyond the whole-stream-scan clause'),
  'C11': ('guard live ranges + edge dominance + effect summary through the tool registry',
          'every mutating execution created and polled inside a WorkspaceGuard or on the proven read-only edge of the same invocation (C11.1); side-effects frame inside the same guard, after the tool frames, one per run (C11.2); read-only names have no write / spawn effect and unknown names lock (C11.3); one one-permit lock (C11.4)',
          '—'),
